@@ -631,7 +631,7 @@ func propC11Update(c c11Case) (ev.Outcome, error) {
 
 func runC11(t *testing.T, driver string) {
 	col := ev.Get("C11")
-	ev.Check(t, col, ev.Scale(400, 2500), genC11(driver, col), propC11)
+	ev.Check(t, col, ev.Scale(400, 3000), genC11(driver, col), propC11)
 }
 
 func TestC11_npm_relax(t *testing.T)      { runC11(t, drvNpmRelax) }
